@@ -483,3 +483,38 @@ def bitcopy(facts: CppFacts):
         raise AnalysisError(f"only {res.instances} bit-block copy methods found")
     res.analysed = [MEM]
     return res
+
+
+def aligncheck(repo):
+    """R-ALIGNCHECK (C04): `ContiguousBuffer<Byte, kAlignment, kOffset>` promises `uintptr_t(bytes_) % kAlignment ==
+    kOffset` and every constructor that takes outside memory DCHECKs it.  The check has to be made on the byte pointer
+    the buffer keeps: the constructor from a container (`T *container`, bytes taken from `container->data()`) tested the
+    address of the container object, so correctly aligned bytes owned by a `std::string` at another address aborted at
+    view construction (and misaligned bytes passed).  For every constructor whose body contains the alignment DCHECK,
+    its first argument is `bytes_`, or the very parameter that `bytes_` is initialised from by a plain cast."""
+    from ..cppast import tokens
+    res = RuleResult("R-ALIGNCHECK")
+    rel = "runtime/cpp/emboss_memory_util.h"
+    text = re.sub(r"//[^\n]*", "", repo.read(rel))
+    for mm in re.finditer(r"explicit\s+ContiguousBuffer\s*\(([^)]*)\)\s*:\s*bytes_\s*\{(.*?)\}\s*,\s*size_\s*\{(.*?)\}\s*\{(.*?)\n  \}", text, re.S):
+        params, init, _size, body = mm.groups()
+        d = re.search(r"EMBOSS_DCHECK_POINTER_ALIGNMENT\s*\(\s*([^,]+),", body)
+        if not d:
+            continue
+        res.instances += 1
+        line = text[:mm.start()].count("\n") + 1
+        arg = d.group(1).strip()
+        pnames = [p.strip().split()[-1].lstrip("*&") for p in params.split(",") if p.strip()]
+        # bytes_{reinterpret_cast<Byte *>(X)}: X is the pointer kept
+        im = re.fullmatch(r"\s*(?:reinterpret_cast|static_cast)\s*<[^>]*>\s*\(\s*(.*?)\s*\)\s*", init, re.S)
+        kept = im.group(1) if im else init.strip()
+        if arg == "bytes_" or (arg == kept and arg in pnames):
+            continue
+        res.add(f"{rel}|ContiguousBuffer({' '.join(tokens(params))})|alignment-operand",
+                f"ContiguousBuffer({' '.join(params.split())}) keeps `{kept}` as its byte pointer but checks the alignment of `{arg}`: "
+                "aligned bytes owned by a container object at a differently aligned address abort in EMBOSS_DCHECK_POINTER_ALIGNMENT "
+                "when the view is constructed, and misaligned bytes are not noticed", rel, line, "ContiguousBuffer")
+    if res.instances < 2:
+        raise AnalysisError(f"only {res.instances} ContiguousBuffer constructors with an alignment check recognised")
+    res.analysed = [rel]
+    return res
